@@ -19,8 +19,6 @@ def pow_num(a, b):
     if is_int(a) and is_int(b):
         if b < 0:
             return _powf(float(a), float(b))
-        if b > 0xFFFFFFFF:
-            raise ModelLimit("huge exponent")
         return wrap(pow(a, b, 1 << 64)) if True else None
     return _powf(float(a), float(b))
 
